@@ -9,6 +9,12 @@ CHECKS = {
  "C12": dict(engine="S", technique=S, design="4/C12",
    text="Every feasible path of the real bins.bins (both fmt, both one) is enumerated by the solver and obligations O1-O8 are discharged as SMT validity queries over ALL integers: no value bound; the only loop is over the module's constant 5-level table. Counterexamples are replayed on the real function.",
    note="Trusts z3 and the ~300-line proxy explorer (vlib/symx.py); integers are mathematical (=Python int). O7 is required only when the interval whose bin set is taken is in range (see DESIGN C12)."),
+ "C06": dict(engine="S", technique=S + "; emitted SQL translated to SMT", design="4/C06",
+   text="Every query shape of region()/limit= (tuple, keyword, 'seqid:start-end' string and Feature forms; one-sided; completely_within; strand/featuretype filters; children/parents JOIN forms) is run through the real region/make_query/bins code with symbolic coordinates and text; for every feasible path the emitted SQL's WHERE/ON is compared with the statement's predicate over a symbolic stored row by z3 - for all integer coordinates (bin boundaries and 2**29 are found by the solver, not enumerated). Counterexamples are replayed on real sqlite3.",
+   note="Trusts z3, vlib/symx.py, and the SQL-subset semantics in vlib/sqlsmt.py (3-valued logic, BINARY collation, numeric affinity of decimal text); row invariant bin=bins(start,end) comes from the same run's summary of the real function (C12/O8 shows Feature computes that). Rows with '.' coordinates are outside the claim."),
+ "C11": dict(engine="S", technique=S + "; emitted SQL translated to SMT (strings: z3 sequence theory)", design="4/C11",
+   text="Every argument shape of all_features/features_of_type (featuretype None/str/collection, strand, order_by as string or tuple for every valid column incl. length and file_order, pairs, reverse) plus count_features_of_type/featuretypes/seqids is executed through the real make_query with symbolic text; WHERE and ORDER BY of the emitted SQL are compared with the statement over two symbolic rows (any strings, any ints). Counterexamples are replayed on real sqlite3 (the model, then a 300-row neighbour so that index-order effects show).",
+   note="Trusts z3 string theory, vlib/symx.py, vlib/sqlsmt.py; assumes BINARY collation = code-point order and rowid order for an unfiltered scan without ORDER BY; reverse with several columns is unspecified by the statement and unchecked."),
 }
 NA = {}
 def main():
